@@ -89,6 +89,15 @@ def shared():
     _S["rulesets"]["default_then_boom"] = pattern.RewriteRuleSet(
         [*rewriter._DEFAULT_REWRITE_RULES, Boom.rule()]
     )
+    # as_function=True over matched nodes of three non-default domains: the extracted function's opset imports
+    def _af_pattern(op, x):
+        b = op.B(x, _domain="custom.b")
+        c = op.C(b, _domain="custom.c")
+        return op.A(c, _domain="custom.a")
+
+    _S["rulesets"]["as_function"] = pattern.RewriteRuleSet(
+        [pattern.RewriteRule(_af_pattern, lambda op, x: op.Fused(x, _domain="custom.f"), as_function=True)]
+    )
     # commuted variants share ONE rule-class instance (one stash) among several RewriteRule objects
     _S["rulesets"]["layer_norm_commute"] = pattern.RewriteRuleSet(list(_layer_norm.layer_normalization_rules), commute=True)
     _S["rulesets"]["boom_first"] = pattern.RewriteRuleSet([Boom.rule(), *rewriter._DEFAULT_REWRITE_RULES])
@@ -552,9 +561,35 @@ def op_model(op: dict) -> dict:
             if rs == "default_pass":
                 r = S["REWRITE"](m)
                 out = ser_ir(m) + b"|modified=%d" % int(bool(r.modified))
+            elif rs == "multi_domain":
+                # a replacement that introduces several NEW opset domains (TapeBuilder.used_opsets is a set)
+                doms = list(op["domains"])
+
+                def _repl(op_, x, _doms=doms):
+                    v = x
+                    for i, d in enumerate(_doms):
+                        v = getattr(op_, f"Op{i}")(v, _domain=d)
+                    return v
+
+                rule = S["pattern"].RewriteRule(lambda op_, x: op_.Softsign(x), _repl)
+                m = S["rewriter"].rewrite(m, [rule])
+                out = ser_ir(m)
+                pm = S["ir"].serde.serialize_model(m)
+                res["opset_imports"] = [[o.domain, int(o.version)] for o in pm.opset_import]
+                probe = set()
+                for d in doms:
+                    probe.add((d, None))  # same elements, same insertion order as TapeBuilder._record_opset
+                res["set_iter"] = [d for d, _ in probe]
+                imps = sorted(pm.opset_import, key=lambda o: o.domain)
+                del pm.opset_import[:]
+                pm.opset_import.extend(imps)
+                res["digest_sorted_imports"] = _sha(pm.SerializeToString())
             else:
                 m = S["rewriter"].rewrite(m, S["rulesets"][rs])
                 out = ser_ir(m)
+                if rs == "as_function":
+                    pm = S["ir"].serde.serialize_model(m)
+                    res["function_imports"] = [[[o.domain, int(o.version)] for o in f.opset_import] for f in pm.functions]
         elif kind == "rewrite_proto":
             out = S["rewriter"].rewrite(proto).SerializeToString()
         elif kind == "convert":
